@@ -65,10 +65,16 @@ def main():
         print('repo dirty, abort')
         return 2
     res = {'property': a.prop, 'seed_dir': seed, 'checks': {}, 'ran': []}
-    rc, out = sh('%s %s/demo.py' % (PY, seed), cwd=REPO)
+    HS = ('0', '1', '2', '3')
+    rcs = [sh('%s %s/demo.py' % (PY, seed), cwd=REPO, env={'PYTHONHASHSEED': h})[0] for h in HS]
+    rc = max(rcs)
     res['demo_clean_exit'] = rc
-    res['ran'].append('demo.py on clean tree -> exit %d' % rc)
+    res['ran'].append('demo.py on clean tree under PYTHONHASHSEED 0..3 -> exit codes %s' % rcs)
     rc, out = sh('git apply %s/patch.diff' % seed, cwd=REPO)
+    if rc != 0:
+        # the seed was made against an earlier commit of /repo: fall back to a three-way merge of the hunks
+        rc, out = sh('git apply --3way %s/patch.diff' % seed, cwd=REPO)
+        sh('git reset -q', cwd=REPO)
     if rc != 0:
         print('patch does not apply:', out)
         return 2
@@ -76,10 +82,13 @@ def main():
         rc, out = sh('%s -m pytest -q -p no:cacheprovider 2>&1 | tail -1' % PY, cwd=REPO)
         res['unit_tests'] = out.strip().splitlines()[-1] if out.strip() else ''
         res['ran'].append('unit tests with change -> %s' % res['unit_tests'])
-        rc, out = sh('%s %s/demo.py' % (PY, seed), cwd=REPO)
+        outs = [sh('%s %s/demo.py' % (PY, seed), cwd=REPO, env={'PYTHONHASHSEED': h}) for h in HS]
+        rcs = [o[0] for o in outs]
+        rc = max(rcs)
+        out = next(o[1] for o in outs if o[0] == rc)
         res['demo_mutant_exit'] = rc
         res['demo_mutant_output'] = out[-600:]
-        res['ran'].append('demo.py with change -> exit %d' % rc)
+        res['ran'].append('demo.py with change under PYTHONHASHSEED 0..3 -> exit codes %s' % rcs)
         for c in checks:
             t0 = time.time()
             ev = dict(extra_env)
